@@ -59,6 +59,9 @@ func main() {
 				r.Inconclusive("session-error")
 			}
 			r.Count("sessions", 1)
+			if s != nil {
+				r.Count("mid_batch_backlog_probes", int64(s.MidProbes))
+			}
 		},
 	})
 	l1.RunManyFilter(r.Seed, r.Pick(30, 400), r.Pick(12, 200), r.Pick(10, 120), l1.FilterCallbacks{
@@ -72,6 +75,9 @@ func main() {
 				r.Inconclusive("session-error")
 			}
 			r.Count("sessions", 1)
+			if fs != nil && fs.Session != nil {
+				r.Count("mid_batch_backlog_probes", int64(fs.MidProbes))
+			}
 			if fs != nil && fs.Session != nil && len(fs.Steps) > 0 {
 				r.Sample(map[string]any{"plan": fs.Plan, "script_tail": tail(fs.Steps, 6)})
 			}
